@@ -532,11 +532,7 @@ def r6_nil_fill(ctx, rule_id="R-C07-6"):
 
 
 def run(ctx):
-    r1_jump_provenance(ctx)
-    r2_index_fields(ctx)
-    r3_dispatch_tables(ctx)
-    r5_remap_order_and_freshness(ctx)
-    r6_nil_fill(ctx)
+    ctx.run_rules([r1_jump_provenance, r2_index_fields, r3_dispatch_tables, r5_remap_order_and_freshness, r6_nil_fill])
     ctx.note("NOT decided: per-path stack height, single argument/result, definite locals of emitted functions — properties of compiler output for all inputs")
     return (
         "Decides structural clauses only: jumps are built by one audited formula from in-range targets; the index-carrying instruction and type "
